@@ -4,6 +4,7 @@
    `Jaq.Time.treeFixes`; `c20f.<op>` answers for the fully repaired code (`Fixes.all`). -/
 import Driver.Common
 import JaqVerif.C20.Epoch
+import JaqVerif.C20.Strtime
 
 namespace Jaq.Driver.C20
 open Jaq.Time
@@ -65,9 +66,47 @@ def civil : Handler := fun toks =>
     | none => "bad-request"
   | _ => "bad-request"
 
+/-! `c20.strftime <hexfmt> <vx>` and `c20.strptime <hexfmt> <hextext>` (`-` = empty byte
+string): the model of `strftime(F)` / `strptime(F)` of `JaqVerif/C20/Strtime.lean`; `U` when the
+format is outside the modelled directive subset. -/
+
+def unhexChars (t : String) : Option (List Char) :=
+  if t == "-" then some [] else (bytesOfHex t).map fun bs => bs.map fun b => Char.ofNat b.toNat
+
+def charsToVal (cs : List Char) : Val := .tstr (cs.map fun c => UInt8.ofNat c.toNat)
+
+def strftimeH (fx : Fixes) : Handler := fun toks =>
+  match toks with
+  | fm :: rest =>
+    match unhexChars fm with
+    | none => "bad-request"
+    | some fcs => withVals 1 rest fun vs =>
+      match vs, parseFormat fcs with
+      | [v], some items =>
+        (match strftimeJaq fx ⟨true⟩ items v with
+         | .ok (.ok cs) => "V " ++ showVal (charsToVal cs)
+         | .ok (.error e) => "E " ++ errCls e
+         | .error .mulOverflow => "P mul"
+         | .error .addOverflow => "P add")
+      | [_], none => "U"
+      | _, _ => "bad-request"
+  | _ => "bad-request"
+
+def strptimeH : Handler := fun toks =>
+  match toks with
+  | [fm, tx] =>
+    match unhexChars fm, unhexChars tx with
+    | some fcs, some tcs =>
+      (match parseFormat fcs with
+       | some items => showR (strptimeJaq items tcs)
+       | none => "U")
+    | _, _ => "bad-request"
+  | _ => "bad-request"
+
 def handlers : List (String × Handler) :=
   ops.map (fun op => ("c20." ++ op, handler treeFixes op)) ++
   ops.map (fun op => ("c20f." ++ op, handler Fixes.all op)) ++
-  [("c20.civil", civil)]
+  [("c20.civil", civil), ("c20.strftime", strftimeH treeFixes), ("c20f.strftime", strftimeH Fixes.all),
+   ("c20.strptime", strptimeH), ("c20f.strptime", strptimeH)]
 
 end Jaq.Driver.C20
